@@ -19,7 +19,7 @@ func init() {
 		Level:      "exploration",
 		Jitter:     true,
 		RaceSample: true,
-		Rule: "tie-rich query (1-6) and target (1-40) sets of width 8-300: targets derived from queries by substitutions drawn from a small shared pool, duplicates, the same column masked by N in one target and by a compatible 2-fold code in another (equal distance, different completeness), equal completeness (file-order ties), all-N / all-gap / heavily ambiguous targets at first, middle and last file position, disjoint-coverage groups (queries resolved in one half of the columns, several targets resolved only in the other half with different completeness, mixed into the list or alone); measures raw/snp/tn93; n in {plain,1,2,3,|T|,|T|+3}; d in {none, an occurring distance, between two, 0}; table on/off; threads {0,1,2,16}; without -d every plain run is repeated as -n 1 and every -n 1 run as plain and the two must name the same target per query; " +
+		Rule: "tie-rich query (1-6) and target (1-40) sets of width 8-300: targets derived from queries by substitutions drawn from a small shared pool, duplicates, the same column masked by N in one target and by a compatible 2-fold code in another (equal distance, different completeness), equal completeness (file-order ties), all-N / all-gap / heavily ambiguous targets at first, middle and last file position, disjoint-coverage groups (queries resolved in one half of the columns, several targets resolved only in the other half with different completeness, mixed into the list or alone); measures raw/snp/tn93; n in {plain,1,2,3,|T|,|T|+3}; d in {none, an occurring distance, between two, 0, the top of the measure's range and beyond}; table on/off; threads {0,1,2,16}; without -d every plain run is repeated as -n 1 and every -n 1 run as plain and the two must name the same target per query; " +
 			"distinct non-trivial = distinct (measure, n kind, d kind, tie pattern, undefined-target position, capacity-boundary replacement) tuples",
 		Assumptions: []string{"without -d, whether an undefined-distance target may fill spare capacity after all defined ones, and what is printed for it, is unspecified: only 'never displaces a defined one' is judged; with -d an undefined distance is not within D and must not be returned",
 			"tn93 order is checked with tolerance 1e-9*max(1,|d|); tie-break rules for tn93 only between targets with identical count tuples"},
@@ -325,7 +325,15 @@ func runC06(c *fw.Ctx, idx int) fw.Result {
 	dKind := "none"
 	D := -1.0
 	if r.Chance(0.45) && len(occurring) > 0 && !(wide && nKind == "plain") {
-		switch r.Intn(3) {
+		switch r.Intn(4) {
+		case 3:
+			// a bound at or above anything the measure can give: every defined distance is within it,
+			// an undefined one still is not
+			dKind = "top"
+			D = []float64{1, 1, 2.5, 1e9}[r.Intn(4)]
+			if measure == "snp" {
+				D = float64(W + r.Intn(3))
+			}
 		case 0:
 			dKind = "occurring"
 			D = occurring[r.Intn(len(occurring))]
